@@ -1,10 +1,204 @@
-(* C06 - property theorems (under construction: see coq/C06/). *)
-From Coq Require Import List ZArith Bool.
-From SV Require Import C06.CpAst C06.CpEnc C06.CpCheck.
+(* C06 - the CP->SAT encoding (solvor/cp_encoder.py, model SV.C06.CpEnc) has exactly the models of the CP problem.
+
+   What rests on THEOREMS (all inputs, no size bound): variables (exactly-one, decoding), ==/!= constant,
+   ==/!= variable, all_different, no_overlap, linear ==/!= in every shape _linearize accepts (chained
+   partial-sum auxiliaries), sum_eq / sum_le / sum_ge, and whole models built from these kinds
+   (`model_proved M = forallb enc_proved (m_cons M)`): C06_sound, C06_complete, C06_equisat, C06_projection.
+   What rests on PER-CASE kernel checks (harness, every explored case): circuit and cumulative
+   (enc_proved = false) - CpCheck.cnf_projection_ok enumerates all models of the CAPTURED clause list inside coqc
+   and compares their projection with holdsb over the domain box; the same check also runs on the proved kinds.
+   The checker itself is proved sound (C06_check_no_extra / C06_check_no_missing / C06_check_none): a case it
+   accepts has, for EVERY SAT assignment of the captured clauses, exactly one value per variable forming a CP
+   solution, and every CP solution is the projection of some SAT assignment of the captured clauses.
+   C06_circuit_pinned_refuted: the circuit encoding of the tree pinned by the property text (before 5a875d8)
+   admits two 2-cycles on 4 nodes. *)
+From Coq Require Import List ZArith Bool Lia.
+From SV Require Import C06.CpAst C06.CpAstProofs C06.CpEnc C06.CpCheck C06.CpPinned C06.EncBasics C06.EncPairwise
+                       C06.EncFrame C06.EncLinear C06.EncLinear2 C06.EncSum C06.EncSum2 C06.EncCircuit C06.EncCircuit2 C06.EncModel
+                       C06.CpCheckProofs C06.CpCheckProofs2.
 Import ListNotations.
 Open Scope Z_scope.
 
-Example C06_encode_example :
-  let x := mkVar 0 0 1 true 1 in let y := mkVar 1 0 1 true 3 in
-  fst (encode (mkModel [x; y] [CNeVar x y] 5)) = [[1; 2]; [-1; -2]; [3; 4]; [-3; -4]; [-1; -3]; [-2; -4]].
+(* ---- (1) variables *)
+Theorem C06_exactly_one_ok : forall b v, 0 < vbase v -> vlb v <= vub v ->
+  (models b (exactly_one (lits_of v)) <-> EO b v).
+Proof. exact exactly_one_ok. Qed.
+Print Assumptions C06_exactly_one_ok.
+
+Theorem C06_decode_in_domain : forall b vs, (forall v, In v vs -> var_ok v) -> models b (enc_vars vs) ->
+  forall v, In v vs ->
+    exists x, dec_var b v = Some x /\ vlb v <= x <= vub v /\ b (vlit v x) = true
+              /\ forall y, vlb v <= y <= vub v -> b (vlit v y) = true -> y = x.
+Proof. exact decode_in_domain. Qed.
+Print Assumptions C06_decode_in_domain.
+
+(* ---- (2) encodings without auxiliaries: equivalences on the decoded values bv *)
+Theorem C06_pairwise : forall b,
+  (forall v c, VOK b v -> (models b (enc_eq_const v c) <-> bv b v = c))
+  /\ (forall v c, VOK b v -> (models b (enc_ne_const v c) <-> bv b v <> c))
+  /\ (forall v w, VOK b v -> VOK b w -> (models b (enc_eq_var v w) <-> bv b v = bv b w))
+  /\ (forall v w, VOK b v -> VOK b w -> (models b (enc_ne_var v w) <-> bv b v <> bv b w))
+  /\ (forall vs, (forall v, In v vs -> VOK b v) -> (models b (enc_all_different vs) <-> NoDup (map (bv b) vs)))
+  /\ (forall ts, (forall p, In p ts -> VOK b (fst p)) ->
+        (models b (enc_no_overlap ts) <-> no_overlap_vals (map (fun p => (bv b (fst p), snd p)) ts))).
+Proof.
+  exact (fun b => conj (enc_eq_const_ok b) (conj (enc_ne_const_ok b) (conj (enc_eq_var_ok b)
+           (conj (enc_ne_var_ok b) (conj (enc_all_different_ok b) (enc_no_overlap_ok b)))))).
+Qed.
+Print Assumptions C06_pairwise.
+
+(* ---- (3) linear ==/!= through the chained partial sums, and the sum constraints *)
+Theorem C06_linear_sound : forall b s n l r is_ne, 0 < n ->
+  (forall v, In v (expr_vars l ++ expr_vars r) -> VOK b v) ->
+  (forall v, In v (expr_vars l ++ expr_vars r) -> aval s v = bv b v) ->
+  models b (fst (enc_ne_expr n l r is_ne)) -> holds s (CLin l r is_ne).
+Proof. exact (fun b s n l r is_ne => cons_sound b s n (CLin l r is_ne) eq_refl). Qed.
+Print Assumptions C06_linear_sound.
+
+Theorem C06_linear_complete : forall b s n l r is_ne, 0 < n ->
+  (forall v, In v (expr_vars l ++ expr_vars r) -> VOK b v /\ var_below n v) ->
+  (forall v, In v (expr_vars l ++ expr_vars r) -> aval s v = bv b v) ->
+  holds s (CLin l r is_ne) ->
+  exists b', agree_below n b b' /\ models b' (fst (enc_ne_expr n l r is_ne)).
+Proof. exact (fun b s n l r is_ne => cons_complete b s n (CLin l r is_ne) eq_refl). Qed.
+Print Assumptions C06_linear_complete.
+
+Theorem C06_sum_sound : forall b n vs t, 0 < n -> (forall v, In v vs -> VOK b v) ->
+  (models b (fst (enc_sum_eq n vs t)) -> bsum b vs = t)
+  /\ (models b (fst (enc_sum_le n vs t)) -> bsum b vs <= t)
+  /\ (models b (fst (enc_sum_ge n vs t)) -> bsum b vs >= t).
+Proof.
+  exact (fun b n vs t Hn Hv => conj (enc_sum_eq_sound b n vs t Hn Hv)
+           (conj (enc_sum_le_sound b n vs t Hn Hv) (enc_sum_ge_sound b n vs t Hn Hv))).
+Qed.
+Print Assumptions C06_sum_sound.
+
+Theorem C06_sum_complete : forall b n vs t, 0 < n -> (forall v, In v vs -> VOK b v /\ var_below n v) ->
+  (bsum b vs = t -> exists b', agree_below n b b' /\ models b' (fst (enc_sum_eq n vs t)))
+  /\ (bsum b vs <= t -> exists b', agree_below n b b' /\ models b' (fst (enc_sum_le n vs t)))
+  /\ (bsum b vs >= t -> exists b', agree_below n b b' /\ models b' (fst (enc_sum_ge n vs t))).
+Proof.
+  exact (fun b n vs t Hn Hv => conj (enc_sum_eq_complete b n vs t Hn Hv)
+           (conj (enc_sum_le_complete b n vs t Hn Hv) (enc_sum_ge_complete b n vs t Hn Hv))).
+Qed.
+Print Assumptions C06_sum_complete.
+
+(* ---- circuit: all_different + range/no-self-loop units + MTZ positions (exactly-one, created fresh) + ordering *)
+Theorem C06_circuit_sound : forall b n vs, 0 < n -> (forall v, In v vs -> VOK b v) ->
+  models b (fst (enc_circuit n vs)) -> circuit_vals (map (bv b) vs).
+Proof. exact enc_circuit_sound. Qed.
+Print Assumptions C06_circuit_sound.
+
+Theorem C06_circuit_complete : forall b n vs, 0 < n -> (forall v, In v vs -> VOK b v /\ var_below n v) ->
+  circuit_vals (map (bv b) vs) -> exists b', agree_below n b b' /\ models b' (fst (enc_circuit n vs)).
+Proof. exact enc_circuit_complete. Qed.
+Print Assumptions C06_circuit_complete.
+
+(* ---- (4) whole models.  wf_model: distinct ids, non-empty domains, literals numbered consecutively from 1
+   (IntVar.__init__), constraint variables are model variables.  model_proved: no circuit / cumulative. *)
+Theorem C06_sound : forall M b, wf_model M = true -> model_proved M = true -> models b (fst (encode M)) ->
+  cp_solution M (dec_asgn (m_vars M) b)
+  /\ forall v, In v (m_vars M) ->
+       exists x, dec_var b v = Some x /\ aval (dec_asgn (m_vars M) b) v = x /\ vlb v <= x <= vub v
+                 /\ forall y, vlb v <= y <= vub v -> (b (vlit v y) = true <-> y = x).
+Proof. exact encode_sound. Qed.
+Print Assumptions C06_sound.
+
+Theorem C06_complete : forall M s, wf_model M = true -> model_proved M = true -> cp_solution M s ->
+  exists b, models b (fst (encode M)) /\ forall v, In v (m_vars M) -> dec_var b v = Some (aval s v).
+Proof. exact encode_complete. Qed.
+Print Assumptions C06_complete.
+
+Theorem C06_equisat : forall M, wf_model M = true -> model_proved M = true ->
+  ((exists b, models b (fst (encode M))) <-> exists s, cp_solution M s).
+Proof. exact encode_equisat. Qed.
+Print Assumptions C06_equisat.
+
+(* decode_sat_solution of the CNF models = the CP solutions projected on the named variables *)
+Theorem C06_projection : forall M, wf_model M = true -> model_proved M = true ->
+  forall p : list (nat * option Z),
+    (exists b, models b (fst (encode M)) /\ decode M b = p)
+    <-> (exists s, cp_solution M s /\ map (fun q => (fst q, Some (snd q))) (project M s) = p).
+Proof. exact encode_projection. Qed.
+Print Assumptions C06_projection.
+
+Theorem C06_empty_clause_infeasible : forall M, wf_model M = true -> model_proved M = true ->
+  has_empty (fst (encode M)) = true -> forall s, ~ cp_solution M s.
+Proof. exact empty_clause_infeasible. Qed.
+Print Assumptions C06_empty_clause_infeasible.
+
+(* ---- the per-case checker (run by the harness on the CAPTURED clause list of every explored case, all kinds
+   including circuit and cumulative) is sound: nothing extra, nothing missing *)
+Theorem C06_check_no_extra : forall M f b,
+  wf_model M = true -> cnf_projection_ok M (Some f) = true -> models b f ->
+  exists xs,
+    Forall2 (fun v x => filter (fun y => b (vlit v y)) (vdom v) = [x]) (m_vars M) xs
+    /\ forallb (holdsb (asgn_of (m_vars M) xs)) (m_cons M) = true
+    /\ In xs (cp_solutions M).
+Proof. exact cnf_projection_ok_no_extra. Qed.
+Print Assumptions C06_check_no_extra.
+
+Theorem C06_check_no_missing : forall M f s,
+  wf_model M = true -> cnf_projection_ok M (Some f) = true -> cp_solution M s ->
+  exists b xs,
+    models b f
+    /\ Forall2 (fun v x => filter (fun y => b (vlit v y)) (vdom v) = [x]) (m_vars M) xs
+    /\ forall i v, nth_error (m_vars M) i = Some v -> vnamed v = true -> nth_error xs i = Some (aval s v).
+Proof. exact cnf_projection_ok_no_missing. Qed.
+Print Assumptions C06_check_no_missing.
+
+Theorem C06_check_none : forall M, cnf_projection_ok M None = true -> cp_solutions M = [].
+Proof. exact cnf_projection_ok_none. Qed.
+Print Assumptions C06_check_none.
+
+(* ---- (5) the pinned circuit encoding admits two 2-cycles *)
+Theorem C06_circuit_pinned_refuted :
+  exists b : asg,
+    models b pinned_cnf
+    /\ map (dec_var b) pinned_vars = [Some 1; Some 0; Some 3; Some 2]
+    /\ (forall v, In v pinned_vars -> length (filter (fun x => b (vlit v x)) (vdom v)) = 1%nat)
+    /\ ~ circuit_vals [1; 0; 3; 2].
+Proof. exact circuit_pinned_refuted. Qed.
+Print Assumptions C06_circuit_pinned_refuted.
+
+(* ---- non-vacuity *)
+Definition ex_x := mkVar 0 (-1) 2 true 1.
+Definition ex_y := mkVar 1 0 3 true 5.
+Definition ex_z := mkVar 2 1 3 true 9.
+Definition ex_h := mkVar 3 0 2 false 12.
+Definition ex_M : cpmodel :=
+  mkModel [ex_x; ex_y; ex_z; ex_h]
+    [CLin (EAdd (EMul (EVar ex_x) 2) (EVar ex_y)) (ESub (EAdd (EVar ex_z) (EConst 1)) (EVar ex_h)) false;
+     CAllDiff [ex_x; ex_y; ex_z];
+     CSumLe [ex_x; ex_y; ex_z; ex_h] 6;
+     CNeVar ex_y ex_h;
+     CNoOverlap [(ex_y, 1); (ex_z, 2)]]
+    15.
+
+(* the hypotheses of C06_sound / C06_complete hold of a model with a 4-term linear equation (auxiliary partial
+   sums), a 4-variable sum_le (auxiliaries), all_different, != and no_overlap; it is feasible, not trivially so,
+   and the Gallina model counter agrees with the theorem on the model's own encoding *)
+Example C06_nonvacuous_hyps :
+  wf_model ex_M && model_proved ex_M && negb (has_empty (fst (encode ex_M))) = true
+  /\ (0 < length (cp_solutions ex_M) < length (box (m_vars ex_M)))%nat
+  /\ (15 < snd (encode ex_M)).
+Proof. vm_compute. repeat split; try reflexivity; lia. Qed.
+
+Example C06_nonvacuous_count : cnf_projection_ok ex_M (Some (fst (encode ex_M))) = true.
 Proof. vm_compute. reflexivity. Qed.
+
+(* circuit and cumulative: the checker accepts the model's own encoding of a 4-node circuit with successor domains
+   reaching outside 0..3 and of a 3-task cumulative (so C06_check_no_extra / _no_missing apply to them) *)
+Example C06_nonvacuous_circuit_cumulative :
+  let s := fun i => mkVar i (-1) 3 true (1 + 5 * Z.of_nat i) in
+  let Mc := mkModel [s 0%nat; s 1%nat; s 2%nat; s 3%nat] [CCircuit [s 0%nat; s 1%nat; s 2%nat; s 3%nat]] 21 in
+  let t := fun i => mkVar i 0 2 true (1 + 3 * Z.of_nat i) in
+  let Mk := mkModel [t 0%nat; t 1%nat; t 2%nat] [CCumulative [(t 0%nat, 2, 2); (t 1%nat, 2, 1); (t 2%nat, 1, 2)] 3] 10 in
+  wf_model Mc && cnf_projection_ok Mc (Some (fst (encode Mc))) && (length (cp_solutions Mc) =? 6)%nat
+  && wf_model Mk && cnf_projection_ok Mk (Some (fst (encode Mk))) && (0 <? length (cp_solutions Mk))%nat = true.
+Proof. vm_compute. reflexivity. Qed.
+
+Example C06_nonvacuous_infeasible :
+  let M := mkModel [ex_x; ex_y] [CSumGe [ex_x; ex_y; ex_x] 8] 9 in
+  wf_model M && model_proved M = true /\ cp_solutions M = [] /\ cnf_projection_ok M (Some (fst (encode M))) = true.
+Proof. vm_compute. repeat split; reflexivity. Qed.
